@@ -699,6 +699,7 @@ class Item:
         self.subs = []  # (anchor, k, text, tag, exact1)
         self.mutants = []  # (label, anchor, k, text)
         self.closures = []  # (anchor, k, header)
+        self.attrs = []
         self.rename = None
         self.tail = False
         self.nobody = False
@@ -791,6 +792,8 @@ def parse_template(text):
             if not mm:
                 raise ExtractError(f"template line {i+1}: bad mutant")
             cur.mutants.append((mm.group(1), lex_anchor(unq(mm.group(2))), int(mm.group(3)) if mm.group(3) else None, unq(mm.group(4))))
+        elif d == "attr":
+            cur.attrs.append(rest)
         elif d == "ret":
             cur.ret = rest
         elif d == "rename":
@@ -1018,6 +1021,8 @@ def extract_item(item, meta, mutant=None, twin=False):
         else:
             p = ctoks[h].start
             ed.replace(p, p, text.rstrip() + "\n", "R-ann")
+    for a in item.attrs:
+        ed.replace(start_b, start_b, a + "\n", "R-ann(attr)")
     text, segs = ed.render()
     if item.nobody:
         # keep only up to the body
